@@ -31,6 +31,7 @@ func initEncAndDecModes() {
 
 	decMode, err = cbor.DecOptions{
 		MaxArrayElements: 10485760, // Set to a reasonably high value, 10MiB
+		MaxMapPairs:      10485760, // maps (e.g. the storage diff of one contract) are not smaller than arrays
 	}.DecModeWithTags(ts)
 	if err != nil {
 		panic(err)
